@@ -113,6 +113,13 @@ def build(ctx):
     for b in range(128):
         for i in (0, 2, 4, 5, len(small)):
             texts.append(('byte', 'EKGSTAY', small[:i] + chr(b) + small[i:]))
+    # stars: runs at the very end, separated by blanks / digits / newlines, last residue replaced, star first
+    for s0 in ['ACDE', 'EKGSTAY', 'M']:
+        for tail in ['**', '* *', '*\n*', '*\n*\n', '***', '*\n\n*\n', '* 12 *', '**\n', '*\r\n*\r\n']:
+            texts.append(('stars', s0, s0 + tail))
+            texts.append(('stars', s0, '>h\n' + s0[:2] + '\n' + s0[2:] + tail))
+        texts += [('stars', s0, s0[:-1] + '**'), ('stars', s0, '*' + s0), ('stars', s0, '*' + s0 + '*'), ('stars', s0, s0 + '*'),
+                  ('stars', s0, s0 + '\n*\n'), ('stars', s0, '*'), ('stars', s0, '**'), ('stars', s0, s0[:1] + '*' + s0[1:] + '*')]
     texts += [('edge', 'ACDE', '>h1\n>h2\nACDE\n'), ('edge', 'ACDE', '>h1\n\n  12 \n>h2\nACDE'), ('edge', 'ACDE', '>h1\n>ACDE\n'),
               ('edge', 'AC', '>h1\nAC\n>h2\nDE\n'), ('edge', 'ACDE', 'ACDE\n>late header\n'),
               ('edge', '', ''), ('edge', '', '\n\n'), ('edge', '', '>only header\n'), ('edge', 'E', 'E'), ('edge', 'EK', 'ek\n')]
